@@ -1,9 +1,10 @@
-from .rules import version, layout, opcodes as o, engine as e
+from .rules import version, layout, opcodes as o, engine as e, glue
 NOT_APPLICABLE = {}
 def S(rules): return {"rules": rules, "explanation": "x", "assumptions": [], "decides": [], "not_decided": []}
 PROPS = {
  "C01": S(version.RULES + layout.RULES + [o.opc3_prologue, o.opc3b_fillers, o.int_intervals, o.exi1_producers, o.join1]),
  "C02": S([o.opc1_cache_normalisation, o.exi2_consumers, o.int_intervals]),
  "C05": S(e.C05), "C10": S(e.C10), "C11": S(e.C11), "C13": S(e.C13), "C16": S(e.C16),
+ "C17": S(glue.C17),
  "C08": S([o.opc2_target_decoder, o.opc3_prologue, o.opc3b_fillers, o.line1, o.fall1]),
 }
